@@ -29,6 +29,36 @@ impl Kind {
     #[allow(clippy::needless_pass_by_value)] // only reference types implement Path
     pub fn insert_recursive<'a, 'b>(
         &'a mut self,
+        iter: impl Iterator<Item = BorrowedSegment<'b>> + Clone,
+        kind: Self,
+    ) {
+        // A value that is not the kind of collection the path indexes into is replaced by a new
+        // collection, which has none of the known elements: account for both outcomes.
+        let replaced = match iter.clone().next() {
+            Some(BorrowedSegment::Field(_)) if self.as_object().is_some() && !self.is_object() => {
+                Some(Self::object(Collection::empty()))
+            }
+            Some(BorrowedSegment::Index(_)) if self.as_array().is_some() && !self.is_array() => {
+                Some(Self::array(Collection::empty()))
+            }
+            _ => None,
+        };
+
+        if let Some(mut replaced) = replaced {
+            if kind.is_never() {
+                return;
+            }
+            replaced.insert_into_collection(iter.clone(), kind.clone());
+            self.insert_into_collection(iter, kind);
+            *self = self.union(replaced);
+        } else {
+            self.insert_into_collection(iter, kind);
+        }
+    }
+
+    #[allow(clippy::too_many_lines)]
+    fn insert_into_collection<'a, 'b>(
+        &'a mut self,
         mut iter: impl Iterator<Item = BorrowedSegment<'b>> + Clone,
         kind: Self,
     ) {
